@@ -9,6 +9,7 @@ import ASV.Proofs.Parser.Grammar
 import ASV.Proofs.Parser.Tokeniser
 import ASV.Proofs.Parser.RulePP
 import ASV.Proofs.Parser.Alias
+import ASV.Proofs.Parser.SubstRule
 namespace ASV.C02
 open ASV ASV.Rules ASV.Parser ASV.Grammar ASV.Layout
 
@@ -174,9 +175,7 @@ example : shapeOr (.or (.one (.id false "a")) (.one (.and (.id false "b") (.one 
 example : okTop (.or (.one (.id false "a")) (.one (.and (.id false "b") (.one (.id true "c"))))) = true := by
   decide +kernel
 
-/-! ### DEFINE aliases behave as textual substitution (thm 4, `_partial`: the step lemma and the
-    invariant are proved; that every parser function therefore returns on `(A, ts)` what it returns
-    on `(∅, subst A ts)` is left to the correspondence, whose oracle is exactly that substitution) -/
+/-! ### DEFINE aliases behave as textual substitution (thm 4) -/
 
 /-- thm 4 core: with a flat alias table (no definition mentions an alias, none is empty), `_consume`
     hands out the head of the *substituted* stream (`view`: current token, then the rest with every
@@ -194,7 +193,31 @@ theorem aliases_stay_flat (cfg : Cfg) (rules rules' : List Rule) (aliases aliase
     (h : parseTokens cfg rules aliases toks = .ok (rules', aliases')) (hf : Flat aliases) : Flat aliases' :=
   parseTokens_flat h hf
 
-example : Flat [] := ⟨by simp, by simp⟩
+/-- thm 4, lifted to the condition parser: with a flat alias table, for every fuel, nesting flags and
+    state, `_parse_conditions` returns on the aliased state exactly what it returns on the
+    alias-free state whose unread input is the substituted stream (`strip s`: current token, then
+    `subst A rest`) — same conditions or same error, and the resulting states correspond again. -/
+theorem alias_is_substitution_conditions (fuel : Nat) (allowCds isGroup : Bool) (s : PS) (hf : Flat s.aliases) :
+    parseConditions fuel allowCds isGroup (strip s) = mapS (parseConditions fuel allowCds isGroup s) :=
+  (blockSim fuel).conds allowCds isGroup s hf
+
+/-- thm 4 (`alias_is_substitution`) for a whole rule: with a flat alias table (guaranteed by
+    `aliases_stay_flat`), for every fuel, `_parse_rule` on the aliased state and on the substituted
+    alias-free state give the same error, or rules with the same name, category, distances,
+    conditions, extenders, superiors, related profiles and examples (`RuleRel`), and corresponding
+    states.  Excluded from the comparison is only the free text (DESCRIPTION words, EXAMPLE compound
+    names): the code skips it without alias replacement.  An alias right after `RULE` is rejected on
+    both sides (the `aliased` flag travels with the substituted tokens). -/
+theorem alias_is_substitution (fuel : Nat) (cfg : Cfg) (s : PS) (hf : Flat s.aliases) :
+    RelS RuleRel (parseRuleWith fuel cfg (strip s)) (parseRuleWith fuel cfg s) :=
+  parseRuleWith_rel hf fuel cfg
+
+/-- what `strip` is on the state a `Parser` starts a rule in: no aliases, input `t :: subst A rest` -/
+example (t : Tok) (rest : List Tok) (A : Aliases) (rules : List Rule) :
+    strip { cur := some t, rest := rest, aliases := A, rules := rules } =
+      { cur := some t, rest := subst A rest, aliases := [], rules := rules } := rfl
+
+example : Flat [] := ⟨by simp, by simp, by simp⟩
 
 /-! ### non-vacuity: each listed class of ill-formed input on a concrete text -/
 
